@@ -104,6 +104,8 @@ class LadderModels(Models):
     def is_const(fe, n):
         # a field-element constant ONE / ZERO in either limb representation
         try:
+            while fe[0] == "st" and len(fe[1]) == 1 and fe[1][0][0] == "st":
+                fe = fe[1][0]           # fiat: FieldElement51(fiat_25519_tight_field_element([u64; 5]))
             limbs = fe[1][0][1]
             return limbs[0][1] == limbs[0][2] == n and all(x[1] == x[2] == 0 for x in limbs[1:])
         except (IndexError, TypeError):
